@@ -474,7 +474,12 @@ func (c *daneDelivery) PrepareConn(ctx context.Context, mx string) {
 		return
 	}
 
-	c.tlsaFut = future.New()
+	// The goroutine below must complete the future created for this
+	// connection, not whatever c.tlsaFut points to once the lookup is done:
+	// if the connection attempt fails before CheckConn is reached, the next
+	// PrepareConn replaces c.tlsaFut while this lookup may still be running.
+	fut := future.New()
+	c.tlsaFut = fut
 
 	go func() {
 		defer func() {
@@ -484,7 +489,7 @@ func (c *daneDelivery) PrepareConn(ctx context.Context, mx string) {
 			}
 		}()
 
-		c.tlsaFut.Set(c.discoverTLSA(ctx, dns.FQDN(mx)))
+		fut.Set(c.discoverTLSA(ctx, dns.FQDN(mx)))
 	}()
 }
 
